@@ -643,8 +643,11 @@ class Beam(_Simu):
 
         # end cases ----------------------------------------------------
 
-        # flat nodal vectors (Nn * dof_n,) cannot be told from element values when Nn * dof_n == Ne
-        storedOnNodes = True if result in ["displacement"] else None
+        # the storage is known here; sizes alone cannot tell it when Nn * dof_n == Ne or Nn == Ne
+        storedOnNodes = result in [
+            "ux", "uy", "uz", "rx", "ry", "rz", "displacement", "displacement_norm", "displacement_matrix",
+            "fx", "fy", "fz", "cx", "cy", "cz",
+        ]
         return self.Results_Reshape_values(values, nodeValues, storedOnNodes)
 
     def _indexResult(self, result: str) -> int:
